@@ -5,7 +5,8 @@ from .. import common, callcheck, meta
 
 LEVEL = "proof"
 RULE = ("Lean (fits_accepted): for every declared parameter type and argument type, if every possible value of the argument (each variant of a union argument) is admitted by the parameter, "
-        "checkArgType reports nothing, and a call that certainly fits a positional signature is accepted (fitting_call_accepted; binding loop model tied by the `bind` stream) (model of IsMatchType / isCoveredBy / isAcceptVariant / IsMatchUnionType / checkArgType, tied by the `match` stream through the verif hook). "
+        "checkArgType reports nothing, and a call that certainly fits a positional signature is accepted (fitting_call_accepted; binding loop model tied by the `bind` stream) (model of IsMatchType / isCoveredBy / isAcceptVariant / IsMatchUnionType / checkArgType, tied by the `match` stream through the verif hook). Union receivers: when every class of the receiver has a declaration (first or overload) that accepts the arguments, the call is accepted, "
+        "for any number of classes and overloads (union_fitting_call_accepted on Bind.bindUnion, `bindu` stream). "
         "End-to-end: generated configurations (2-5 classes with extends chains, overloads, required/default/rest/keyword parameters, union and class-typed parameters) next to the shipped test "
         "configuration, and generated programs (literals, locals, ternary unions as receivers and arguments, instance and class-method calls, nested in if/unless/times blocks); a class-level oracle "
         "marks each call CERTAINLY FITTING (every receiver class has a declaration whose count is accepted and whose parameters accept every possible class of every argument); no such row "
